@@ -149,8 +149,10 @@ def rand_float_bound(rng):
 # once with f64 coefficients (SDK) and once with [p, q] pairs (model)
 
 
-def render_rat(rng, mons, pool):
-    """mons: list of (ids tuple, Fraction); returns (f64 tree, rational tree)"""
+def render_rat(rng, mons, pool, split=0.0):
+    """mons: list of (ids tuple, Fraction); returns (f64 tree, rational tree).  With probability `split` per term a
+    coefficient is spread over two entries of the same monomial (legal where the message allows repeats: terms of a
+    Linear / of a Quadratic's linear part, monomials of a Polynomial; never a quadratic (row, column) position)"""
     d = max([len(m) for m, _ in mons] or [0])
     opts = ["poly"]
     if d <= 2:
@@ -168,6 +170,16 @@ def render_rat(rng, mons, pool):
         m = tuple(sorted(rng.choice(pool) for _ in range(k)))
         if all(m != mm for mm, _ in terms):
             terms.append((m, Fraction(0)))
+    if split > 0:
+        out = []
+        for m, c in terms:
+            ok_here = variant == "poly" or (len(m) == 1 and variant in ("lin", "quad"))
+            if ok_here and c != 0 and rng.random() < split:
+                a = c * rng.choice([Fraction(1, 2), Fraction(2), Fraction(-1), Fraction(1, 4)])
+                out += [(m, a), (m, c - a)]
+            else:
+                out.append((m, c))
+        terms = out
     rng.shuffle(terms)
 
     def build(num):
